@@ -1,6 +1,7 @@
 """C16 — acknowledged VAA writes survive a crash of the node (partial by nature: proof of the wrapper over an abstract
 crash-prone engine + SIGKILL fault injection on the real engine)."""
 import core
+from dbgroup_common import run_cases_retry, coq_prove_retry
 from c04 import hist
 
 HDR = ("From Coq Require Import Uint63.\nFrom Coq Require Import List ZArith Bool Arith Strings.Byte.\n"
@@ -74,7 +75,7 @@ def mon_key(m):
 
 def run(ctx):
     st = core.run_extract(ctx, ["db_store", "db_keys", "vaa_consts"])
-    core.coq_prove(ctx, "C16", extra_targets=["model/CrashKVRun.vo"])
+    coq_prove_retry(ctx, "C16", extra_targets=["model/CrashKVRun.vo"])
     if ctx.tier == "thorough":
         core.coq_thorough_audit(ctx, "C16")
     rc, out, trace = core.harness_pkg(ctx, "db", "^TestVerifC16$", timeout=3000)
@@ -125,8 +126,8 @@ def run(ctx):
     ctx.cov["monitor_failures"] = nmon
     # is every observed cycle (restricted to the stores around the kill) a history of the abstract store?
     cases = [r for r in rows if r.get("k") == "closed" and "vaa" in r] + [r for r in cyc if r.get("window")]
-    bad = core.run_cases(ctx, "cases_C16", cases, HDR, "dcase", gcase, "(* ok : dcase -> bool is WH.model.CrashKVRun.ok *)",
-                         weight=lambda r: 3 * len(r.get("window") or []) + 1)
+    bad = run_cases_retry(ctx, "cases_C16", cases, HDR, "dcase", gcase, "(* ok : dcase -> bool is WH.model.CrashKVRun.ok *)", ["model/CrashKVRun.vo"],
+                          weight=lambda r: 3 * len(r.get("window") or []) + 1)
     if bad is None:
         return
     for i in bad[:3]:
